@@ -538,6 +538,15 @@ fn run_single_program(
             let pid: i32 = child.into();
             if idx_cmd == 0 {
                 *pgid = pid;
+            }
+            unsafe {
+                // also done by the child itself; doing it on both sides
+                // closes the race where a later stage tries to join the
+                // group before the first stage has created it (and would
+                // stay in the shell's own group).
+                libc::setpgid(pid, *pgid);
+            }
+            if idx_cmd == 0 {
                 unsafe {
                     // we need to wait pgid of child set to itself,
                     // before give terminal to it (for macos).
